@@ -553,7 +553,7 @@ def main():
     enforced_fns = set(e.split("/")[0] for e in enforced)
     assumed_only = [x for x in repl if x.split("/")[0] not in enforced_fns]
     ev = {
-        "property_id": prop, "tier": tier, "seed": seed, "level": "proof",
+        "property_id": prop, "tier": tier, "seed": seed, "level": getattr(mod, "LEVEL", "proof"),
         "coverage": {
             "obligations": ob, "discharged": dis,
             "bounded": {"obligations": bob, "discharged": bdis,
@@ -572,7 +572,7 @@ def main():
             "known_findings_hit": sorted(set(k["id"] for k, _ in known_hits)),
             "known_finding_obligations_failed": nknown,
             "solver_s_total": round(sum(r["solver_s"] for r in results), 1),
-            "explanation": getattr(mod, "EXPLANATION", ""),
+            "explanation": getattr(mod, "EXPLANATION", "") or "contract obligations on the real code discharged by CBMC; bounded pairs are listed under 'bounded' and never counted as proved",
         },
         "assumptions": trusted + list(getattr(mod, "NOT_DECIDED", [])),
         "wall_s": round(time.time() - t0, 2),
